@@ -193,7 +193,8 @@ static int filter_assembly_str_fsa(const char unfiltered_str[],
          unfiltered_str[i] != '\0') {
     switch (filter_state) {
     case BEGIN:
-      if (unfiltered_str[i] >= 'A' && unfiltered_str[i] <= 'z') {
+      // leading blanks are skipped, anything else starts the first token
+      if (unfiltered_str[i] > ' ') {
         filter_str[j++] = (char)tolower(unfiltered_str[i]);
         filter_state = FIRST_CH;
       }
